@@ -1,6 +1,7 @@
 package props
 
 import (
+	"bytes"
 	"fmt"
 	"hash/fnv"
 	"reflect"
@@ -10,6 +11,8 @@ import (
 	enc "github.com/DataDog/sketches-go/ddsketch/encoding"
 	"github.com/DataDog/sketches-go/ddsketch/pb/sketchpb"
 	"github.com/DataDog/sketches-go/ddsketch/store"
+
+	"google.golang.org/protobuf/proto"
 
 	"verif/mc"
 	"verif/model"
@@ -243,8 +246,16 @@ func opAddRunW(s, base, n, stride int, c float64) storeOp {
 }
 func opMerge(a, b int) storeOp {
 	return storeOp{name: fmt.Sprintf("%s.MergeWith(%s)", slotName(a), slotName(b)), tag: "merge", writes: 1 << uint(a),
-		real: func(st []store.Store, _ []Kind, _ bool) { st[a].MergeWith(st[b]) },
-		mod:  func(w *StoreWorld) { w.M[a].MergeFrom(w.M[b]) }}
+		real: func(st []store.Store, _ []Kind, twin bool) {
+			if twin && curStoreWorld != nil && curStoreWorld.SkipReads {
+				// read-free twin: being the argument of a merge is a read too; the twin
+				// merges a copy, so its argument is never touched
+				st[a].MergeWith(st[b].Copy())
+				return
+			}
+			st[a].MergeWith(st[b])
+		},
+		mod: func(w *StoreWorld) { w.M[a].MergeFrom(w.M[b]) }}
 }
 
 // opMergeSelf: a.MergeWith(a) doubles every weight.
@@ -252,6 +263,22 @@ func opMergeSelf(a int) storeOp {
 	return storeOp{name: fmt.Sprintf("%s.MergeWith(%s)", slotName(a), slotName(a)), tag: "merge", writes: 1 << uint(a),
 		real: func(st []store.Store, _ []Kind, _ bool) { st[a].MergeWith(st[a]) },
 		mod:  func(w *StoreWorld) { w.M[a].Scale(2) }}
+}
+
+// opProtoStream: a receives what b's streaming protobuf writer wrote
+// (EncodeProto -> Unmarshal -> MergeWithProto).
+func opProtoStream(a, b int) storeOp {
+	return storeOp{name: fmt.Sprintf("store.MergeWithProto(%s, Unmarshal(%s.EncodeProto()))", slotName(a), slotName(b)), tag: "proto", writes: 1 << uint(a),
+		real: func(st []store.Store, _ []Kind, _ bool) {
+			var buf bytes.Buffer
+			st[b].EncodeProto(sketchpb.NewStoreBuilder(&buf))
+			var pb sketchpb.Store
+			if err := proto.Unmarshal(buf.Bytes(), &pb); err != nil {
+				panic("the bytes of the streaming protobuf writer do not unmarshal: " + err.Error())
+			}
+			store.MergeWithProto(st[a], &pb)
+		},
+		mod: func(w *StoreWorld) { w.M[a].MergeFrom(w.M[b]) }}
 }
 
 // opProtoSelf: store.MergeWithProto(a, a.ToProto()) doubles every weight.
@@ -444,7 +471,7 @@ func (o storeOp) toOp() mc.Op[*StoreWorld] {
 			if !w.SkipReads {
 				o.real(w.T, w.K, true)
 			} else if o.tag != "read" {
-				o.real(w.T, w.K, false)
+				o.real(w.T, w.K, o.tag == "merge")
 			}
 		}
 		o.mod(w)
@@ -697,7 +724,7 @@ func (sp *StoreScenarioSpec) Build() *mc.Scenario[*StoreWorld] {
 			if sp.NoReadTwin {
 				if twin := ObserveStore(w.T[i], ranks); real != twin {
 					fails = append(fails, mc.Fail{Clause: "C14.reads-leave-no-trace",
-						Detail: fmt.Sprintf("slot %s (%s): the same history without its read-only operations leads to other answers\n  with reads:    %s\n  without reads: %s", slotName(i), w.K[i], real, twin)})
+						Detail: fmt.Sprintf("slot %s (%s): the same history without its read-only operations (and with every merge argument replaced by a copy) leads to other answers\n  with reads:    %s\n  without reads: %s", slotName(i), w.K[i], real, twin)})
 				}
 			}
 			if sp.Twin {
